@@ -61,7 +61,7 @@ def plan(tier, seed):
     units = [{"kind": "hist", "g": g, "w": 6} for g in range(ng)]
     nd = 2 if tier == "quick" else 32
     units += [{"kind": "derive", "s": s, "w": 3} for s in range(nd)]
-    ns = 6 if tier == "quick" else 320
+    ns = 16 if tier == "quick" else 320
     units += [{"kind": "sweep", "start": s, "stop": s + 2, "w": 2} for s in range(0, ns, 2)]
     nq = 12 if tier == "quick" else 640
     units += [{"kind": "determ", "start": s, "stop": s + 4, "w": 2} for s in range(0, nq, 4)]
@@ -599,19 +599,19 @@ def run_sweep(ctx, i):
                         extra[slot] = own("preloaded_" + slot, _np(v).copy())
                 except Exception:
                     pass
-            if extra:
-                names_ = sorted(extra)
-                pick = names_[(i // 4) % len(names_)]
-                slots = {pick: extra[pick]}
-                if all(isinstance(o, aa.AbstractMapper) for o in objs) or pick != "data_vector_mapper":
-                    pass
-                ctx.classes["sweep_preload_slot:" + pick] += 1
-        pre = T.own_state("preloads", aa.Preloads(**slots))
-        for rep in range(2):
-            inv2 = do(lambda: aa.Inversion(dataset=case["ds"], linear_obj_list=objs, settings=st, preloads=pre))
-            if inv2 is not None:
-                do(lambda: inv2.reconstruction)
-                do(lambda: inv2.log_det_curvature_reg_matrix_term)
+            slot_sets = [{k: extra[k]} for k in sorted(extra)] or [slots]
+        else:
+            slot_sets = [slots]
+        for slots in slot_sets:
+            for k in slots:
+                ctx.classes["sweep_preload_slot:" + k] += 1
+            pre = T.own_state("preloads(%s)" % "+".join(sorted(slots)), aa.Preloads(**slots))
+            for rep in range(2):
+                inv2 = do(lambda: aa.Inversion(dataset=case["ds"], linear_obj_list=objs, settings=st, preloads=pre))
+                if inv2 is not None:
+                    do(lambda: inv2.data_vector)
+                    do(lambda: inv2.reconstruction)
+                    do(lambda: inv2.log_det_curvature_reg_matrix_term)
     # interferometer inversion that omits `settings` / `preloads`: the module-level defaults are used (and must survive)
     def interferometer():
         Func = gen_aa.func_list_class(aa)
